@@ -202,6 +202,29 @@ def handle (parts : List String) : String :=
 structure DState where
   types : Obj.Types := []
   atlases : List (Nat × Obj.Atlas) := []
+  it : Obj.IfaceTys := default
+
+def showURes (total : Nat) : URes → String × Option Val
+  | .ok v _ used => (String.ofList (List.replicate (used - 1) '.') ++ "D", some v)
+  | .more used => (String.ofList (List.replicate (min used total) '.'), none)
+  | .err used => (String.ofList (List.replicate used '.') ++ "E", none)
+  | .panic used => (String.ofList (List.replicate used '.') ++ "P", none)
+
+/-- does `Bind` (machine selection + Reset of the root machine) fail? -/
+def bindFails (ts : Obj.Types) (a : Obj.Atlas) (id : Nat) : Bool :=
+  let (n, base) := peel ts 64 0 id
+  if n > 0 then false else
+  let mapBad (kt : Nat) : Bool :=
+    match ts.get kt with
+    | .prim .string _ => false
+    | _ => (match a.get kt with
+            | some ⟨_, _, _, .transform _ _ uty⟩ => (match ts.get uty with | .prim .string _ => false | _ => true)
+            | _ => true)
+  match upickBare ts a base with
+  | .errThunk => true
+  | .map kt _ => mapBad kt
+  | .transform _ uty => (match upickBare ts a uty with | .errThunk => true | .map kt _ => mapBad kt | _ => false)
+  | _ => false
 
 def showMOut (o : MOut) : String :=
   showToks o.toks ++ "/" ++ (match o.fail with | none => "ok" | some .err => "err" | some .panic => "panic")
@@ -216,11 +239,33 @@ def handleObj (st : DState) (parts : List String) : Option (DState × String) :=
     match parseNat id, parseAtlas srt body with
     | some i, some a => some ({ st with atlases := st.atlases ++ [(i, a)] }, "def")
     | _, _ => some (st, "bad-def")
+  | ["Y", a1, a2, a3, a4, a5, a6, a7, a8, a9] =>
+    match [a1, a2, a3, a4, a5, a6, a7, a8, a9].mapM parseNat with
+    | some [s, b, bo, i, u, f, m, sl, ifc] => some ({ st with it := ⟨s, b, bo, i, u, f, m, sl, ifc⟩ }, "def")
+    | _ => some (st, "bad-def")
+  | ["unmarshal", aid, tid, toks] =>
+    match parseNat aid, parseNat tid, parseToks toks with
+    | some ai, some ti, some tks =>
+      match st.atlases.lookup ai with
+      | some a =>
+        if bindFails st.types a ti then some (st, "M=b V=-") else
+        let r := unmV st.types a trLib st.it 100000 ti (zeroVal st.types 64 ti) tks
+        let (fl, v) := showURes tks.length r
+        some (st, "M=" ++ fl ++ " V=" ++ (match v with | some x => showVal x | none => "-"))
+      | none => some (st, "bad-op")
+    | _, _, _ => some (st, "bad-op")
   | ["marshal", aid, tid, _viaPtr, val] =>
     match parseNat aid, parseNat tid with
     | some ai, some ti =>
       match st.atlases.lookup ai, parseValue st.types ti val with
-      | some a, some v => some (st, "M=" ++ showMOut (marshalV st.types a trLib 100000 ti v))
+      | some a, some v =>
+        -- Bind(v interface{}) sees through a root of interface kind (and an untyped nil becomes a nil *int);
+        -- via a pointer the declared type is kept.
+        let out := match _viaPtr, st.types.get ti, v with
+          | "0", .iface _, .iface none => MOut.ok [⟨.null, none⟩]
+          | "0", .iface _, .iface (some (dt, dv)) => marshalV st.types a trLib 100000 dt dv
+          | _, _, _ => marshalV st.types a trLib 100000 ti v
+        some (st, "M=" ++ showMOut out)
       | _, _ => some (st, "bad-op")
     | _, _ => some (st, "bad-op")
   | _ => none
